@@ -61,7 +61,7 @@ BUILTIN = ('echo', 'help')
 def regen_layout(ctx):
     exe, log = ctx.cc('layout_console', [os.path.join(vlib.VERIF, 'harness/layout_console.c')] + LINK, ['-I' + R + '/librfn'], san=False)
     if not exe:
-        raise vlib.Infra('layout program does not compile against the repository: ' + log[-1500:])
+        raise vlib.Unbuildable('layout program does not compile against the repository: ' + log[-1500:])
     rc, out, err = vlib.sh([exe], timeout=30)
     if rc != 0:
         raise vlib.Infra('layout program failed: ' + err[-500:])
@@ -87,7 +87,7 @@ def harness(ctx, bounds=True):
         exe, log = ctx.cc('h_console_nb', [os.path.join(vlib.VERIF, 'harness/h_console.c')] + LINK,
                           ['-I' + R + '/librfn', '-fsanitize=address', '-fno-omit-frame-pointer'], san=False)
     if not exe:
-        raise vlib.Infra('console harness does not compile against the repository: ' + log[-1500:])
+        raise vlib.Unbuildable('console harness does not compile against the repository: ' + log[-1500:])
     return exe
 
 
